@@ -115,8 +115,9 @@ def traj_out(pomdp, tr, s0_label):
 
 
 def _np(x):
+    """controller tables, agent states and value tables may be torch tensors (with or without grad) or arrays"""
     import numpy as np
-    return x.detach().double().numpy() if hasattr(x, "detach") else np.asarray(x, dtype=float)
+    return np.asarray(x.detach().double() if hasattr(x, "detach") else x, dtype=float)
 
 
 def do_runs(pomdp, ctrl, c, nodes):
@@ -135,9 +136,16 @@ def do_runs(pomdp, ctrl, c, nodes):
         else:
             kw["initial_state"] = s0
         ag0 = None
-        if k == 2 and not hasattr(ctrl.action_strategy, "detach"):
-            ag0 = np.zeros(nodes); ag0[nodes - 1] = 1.0     # explicit initial agent state (last node, one-hot)
-            kw["initial_agentstate"] = ag0
+        if k == 2:
+            # explicit initial agent state (last node, one-hot), in whatever form the controller's own
+            # initial_agentstate() has (tensor or array)
+            proto = ctrl.initial_agentstate()
+            ag0 = np.zeros(nodes); ag0[nodes - 1] = 1.0
+            if hasattr(proto, "detach"):
+                import torch
+                kw["initial_agentstate"] = torch.tensor(ag0, dtype=proto.dtype)
+            else:
+                kw["initial_agentstate"] = ag0
         tr = ctrl.run_on(pomdp, max_steps=cap, rng=rng, **kw)
         o = traj_out(pomdp, tr, s0)
         o["max_steps"] = cap
@@ -162,7 +170,7 @@ def nd(x):
 def fjn(a):
     """nested exact encoding of a numpy/torch array"""
     import numpy as np
-    a = np.asarray(a, dtype=float)
+    a = _np(a)
     def rec(y):
         return [rec(z) for z in y] if isinstance(y, list) else fj(y)
     return rec(a.tolist())
@@ -184,10 +192,10 @@ def run_eval(c):
         tpi, tom, tini = torch.tensor(pi, dtype=dt), torch.tensor(om_in, dtype=dt), torch.tensor(ini, dtype=dt)
         r = stochastic_fsc_policy_evaluation_exact(pomdp, tpi, tom, fsc_initial_state=tini, dtype=dt)
         r0 = stochastic_fsc_policy_evaluation_exact(pomdp, tpi, tom, dtype=dt)
-        out["eval"] = {"V": fjn(r.state_controller_value.double().numpy()),
-                       "state_value": fjn(r.state_value.double().numpy()),
-                       "expected_value": fj(r.expected_value.item()),
-                       "V_noinit": fjn(r0.state_controller_value.double().numpy()),
+        out["eval"] = {"V": fjn(_np(r.state_controller_value)),
+                       "state_value": fjn(_np(r.state_value)),
+                       "expected_value": fj(float(r.expected_value)),
+                       "V_noinit": fjn(_np(r0.state_controller_value)),
                        "noinit_has_value": hasattr(r0, "expected_value") or ("expected_value" in getattr(r0, "__dict__", {})),
                        "om_shape": list(tom.shape)}
     except BaseException as e:
@@ -253,8 +261,7 @@ def run_bpi(c):
 
     def rec_eval(pm, fa, fs, **kw):
         r = orig_eval(pm, fa, fs, **kw)
-        evals.append({"pi": fjn(fa.detach().numpy()), "om": fjn(fs.detach().numpy()),
-                      "V": fjn(r.state_controller_value.detach().numpy())})
+        evals.append({"pi": fjn(_np(fa)), "om": fjn(_np(fs)), "V": fjn(_np(r.state_controller_value))})
         return r
 
     # every public node-improvement routine / LP back end
@@ -345,11 +352,10 @@ def run_ga(c):
             learner.train_on(build_pomdp(c["pomdp_prev"]))     # object reuse
         res = learner.train_on(pomdp)
         pol = res.policy
-        def np_(t):
-            return t.detach().double().numpy()
+        np_ = _np
         out["result"] = {"pi": fjn(np_(pol.action_strategy)), "om": fjn(np_(pol.observation_strategy)),
                          "init": fjn(np_(pol.initial_state_dist)),
-                         "value": fj(res.value.expected_value.item()),
+                         "value": fj(float(res.value.expected_value)),
                          "V": fjn(np_(res.value.state_controller_value))}
         try:
             out["runs"] = do_runs(pomdp, pol, c, int(pol.action_strategy.shape[0]))
